@@ -329,6 +329,11 @@ func (d *Demuxer) parseExtended(payload []byte) error {
 	canvasWidth++
 	canvasHeight := int(vp8x.Data[7]) | int(vp8x.Data[8])<<8 | int(vp8x.Data[9])<<16
 	canvasHeight++
+	// Same cap as container.Parser (parseVP8X): a canvas of MaxImageArea pixels
+	// or more is rejected, whatever the frames inside it look like.
+	if uint64(canvasWidth)*uint64(canvasHeight) >= container.MaxImageArea {
+		return fmt.Errorf("%w: canvas %dx%d too large", ErrInvalidVP8X, canvasWidth, canvasHeight)
+	}
 
 	d.features = Features{
 		Width:        canvasWidth,
